@@ -17,6 +17,7 @@ func ParseJSONFloatPrefix(data []byte) (f float64, n int, err error) {
 	var exp int
 	var neg, trunc, ok bool
 	mantissa, exp, neg, trunc, n, ok = readFloat(data)
+	verifScan(mantissa, exp, neg, trunc, n, ok)
 	if !ok {
 		return 0, 0, errSyntax
 	}
